@@ -1,5 +1,6 @@
 //! C13 Pedersen commitments equal v*B + r*B_blinding and are additively homomorphic.
-use crate::alphabet::{val, VAL_NAMES};
+use crate::alphabet::val;
+pub const NAMES13: [&str; 12] = ["0", "1", "-1", "2", "2^64+1", "(p-1)/2", "p-2", "rho", "2^64", "2^128", "2^192", "2^192+7"];
 use crate::curves::{ref_mul, Cv, CURVES};
 use crate::evidence::{guarded, Report, Violation};
 use crate::props::common::*;
@@ -29,7 +30,13 @@ pub struct Out {
 }
 
 pub fn run_curve<G: Cv>(seed: u64, tier: Tier, base_idx: usize) -> Out {
-    let vals = val::<G::ScalarField>(seed);
+    let mut vals = val::<G::ScalarField>(seed);
+    // limb-boundary values: 2^64, 2^128, 2^192, 2^192 + 7
+    let two64 = G::ScalarField::from(u64::MAX) + G::ScalarField::from(1u64);
+    vals.push(two64);
+    vals.push(two64 * two64);
+    vals.push(two64 * two64 * two64);
+    vals.push(two64 * two64 * two64 + G::ScalarField::from(7u64));
     let n = vals.len();
     let mut out = Out { evals: 0, hist: vec![], bad: vec![] };
     let (mut c_eq, mut c_hom, mut c_scale, mut c_prover, mut c_id) = (0u64, 0u64, 0u64, 0u64, 0u64);
@@ -38,7 +45,7 @@ pub fn run_curve<G: Cv>(seed: u64, tier: Tier, base_idx: usize) -> Out {
         let mut table = vec![];
         for i in 0..n {
             for j in 0..n {
-                let key = json!({"curve": G::NAME, "bases": bname, "v": VAL_NAMES[i], "r": VAL_NAMES[j]});
+                let key = json!({"curve": G::NAME, "bases": bname, "v": NAMES13[i], "r": NAMES13[j]});
                 let got = match guarded(|| pg.commit(vals[i], vals[j])) {
                     Ok(g) => g,
                     Err(m) => {
@@ -81,7 +88,7 @@ pub fn run_curve<G: Cv>(seed: u64, tier: Tier, base_idx: usize) -> Out {
                 c_hom += 1;
                 if lhs != rhs {
                     out.bad.push((
-                        json!({"curve": G::NAME, "bases": bname, "law": "add", "p1": [VAL_NAMES[*i1], VAL_NAMES[*j1]], "p2": [VAL_NAMES[*i2], VAL_NAMES[*j2]]}),
+                        json!({"curve": G::NAME, "bases": bname, "law": "add", "p1": [NAMES13[*i1], NAMES13[*j1]], "p2": [NAMES13[*i2], NAMES13[*j2]]}),
                         "commit(v1,r1)+commit(v2,r2) == commit(v1+v2,r1+r2)".into(),
                         "different point".into(),
                     ));
@@ -100,7 +107,7 @@ pub fn run_curve<G: Cv>(seed: u64, tier: Tier, base_idx: usize) -> Out {
                 c_scale += 1;
                 if lhs != rhs {
                     out.bad.push((
-                        json!({"curve": G::NAME, "bases": bname, "law": "scale", "s": VAL_NAMES[s_idx], "p": [VAL_NAMES[*i], VAL_NAMES[*j]]}),
+                        json!({"curve": G::NAME, "bases": bname, "law": "scale", "s": NAMES13[s_idx], "p": [NAMES13[*i], NAMES13[*j]]}),
                         "s*commit(v,r) == commit(s*v, s*r)".into(),
                         "different point".into(),
                     ));
@@ -114,7 +121,7 @@ pub fn run_curve<G: Cv>(seed: u64, tier: Tier, base_idx: usize) -> Out {
 
 pub fn main(o: &Opts) -> i32 {
     let mut rep = Report::new("C13", o.tier.name(), o.seed, "exploration");
-    rep.bounds = json!({"values": VAL_NAMES, "base_pairs": ["default", "swapped", "2B,3Bb"], "pairs_of_pairs": 4096, "scalings": if o.tier == Tier::Quick { 4 } else { 8 }});
+    rep.bounds = json!({"values": NAMES13, "base_pairs": ["default", "swapped", "2B,3Bb"], "pairs_of_pairs": 20736, "scalings": if o.tier == Tier::Quick { 4 } else { 8 }});
     rep.curves = CURVES.iter().map(|s| s.to_string()).collect();
     rep.rule = "full grid (v,r) in VAL x VAL for 3 base pairs x 3 curves against a double-and-add reference written in the harness; all pairs of pairs for additivity; scalings; Prover::commit for every pair; non-trivial = evaluations with (v,r) != (0,0)".into();
     use rayon::prelude::*;
